@@ -259,6 +259,7 @@ def case_line(src, rec, inputs):
 class Parse:
     def __init__(self):
         self.lexemes = []        # (tok, s, e)
+        self.faulty = []         # per lexeme: handed over by the lexer as a faulty lexeme (FM section; absent = none)
         self.oa = None
         self.log = []            # raw strings of L sections after the tag
         self.ea = []             # raw
@@ -279,9 +280,12 @@ def split_impl(line):
             cur = Parse()
             v = [int(x) for x in s[1:]]
             cur.lexemes = [tuple(v[i:i + 3]) for i in range(0, len(v), 3)]
+            cur.faulty = [0] * len(cur.lexemes)
             parses.append(cur)
         elif cur is None:
             continue
+        elif t == "FM":
+            cur.faulty = [int(c) for c in s[1]] if len(s) > 1 else cur.faulty
         elif t == "OA":
             cur.oa = " ".join(s[1:])
         elif t == "L":
@@ -419,21 +423,26 @@ def oracle(prods, p, rec):
         if p.ta != tree_s[root]:
             probs.append(("tree", "tree built by the actions %s is not the tree of the log %s" % (p.ta, tree_s[root])))
         lv = leaves[root]
-        real = [(t, s, e) for (t, s, e, f) in lv if not f]
+        # the input as the lexer handed it over: (tok, s, e, faulty) — a LEXER-SUPPLIED faulty lexeme (non-zero length in every
+        # generated input) is an input lexeme like any other; the lexemes the recoverer inserts are faulty AND zero-length
+        given = [l + (f,) for l, f in zip(p.lexemes, p.faulty)]
+        inserted = [x for x in lv if x[3] and x[1] == x[2] and x not in given]
+        real = [x for x in lv if not (x[3] and x[1] == x[2] and x not in given)]
         if not rec:
-            if real != list(p.lexemes) or len(real) != len(lv):
-                probs.append(("leaves", "leaves %s are not the input %s" % (lv, p.lexemes)))
+            if real != given or inserted:
+                probs.append(("leaves", "leaves %s are not the input %s" % (lv, given)))
         else:
-            it = iter(p.lexemes)
+            it = iter(given)
             if not all(any(x == y for y in it) for x in real):
-                probs.append(("leaves", "non-faulty leaves %s are not a subsequence of the input %s" % (real, p.lexemes)))
+                if any(f and s != e and (t, s, e, f) not in given for (t, s, e, f) in lv):
+                    probs.append(("leaves", "a faulty lexeme that is not an input lexeme is not zero-length"))
+                probs.append(("leaves", "leaves %s (without the inserted ones) are not a subsequence of the input %s" % (real, given)))
             # (a Shift/Insert of the applied sequence that meets an Error cell is silently skipped by lr_upto —
             #  C05's subject — so the repairs only bound the number of inserted leaves)
             ins = sum(1 for r in p.ea for w in r.split()[3:] if w.startswith("I"))
-            if len(lv) - len(real) > ins:
-                probs.append(("leaves", "leaves %s contain more faulty lexemes than the %d Inserts of the applied repairs" % (lv, ins)))
-            if any(f and s != e for (t, s, e, f) in lv):
-                probs.append(("leaves", "a faulty (inserted) lexeme is not zero-length"))
+            if len(inserted) > ins:
+                probs.append(("leaves", "leaves %s contain more inserted (faulty, zero-length) lexemes than the %d Inserts of the "
+                                        "applied repairs" % (lv, ins)))
     elif p.oa is not None and p.oa.startswith("none") and not p.ea:
         probs.append(("errors", "no value and no error"))
     # ---- generic tree mode: same verdict and tree when the same repairs were applied
@@ -506,7 +515,9 @@ def run(ctx):
         for p, m in zip(parses, mparses):
             ctx.coverage["parses"] = ctx.coverage.get("parses", 0) + 1
             probs, facts = oracle(prods, p, rec)
-            inp = " ".join("%d@%d-%d" % l for l in p.lexemes)
+            inp = " ".join("%d@%d-%d" % l + ("!" if f else "") for l, f in zip(p.lexemes, p.faulty))
+            if any(p.faulty):
+                ctx.count("parses_with_lexer_supplied_faulty_lexemes")
             replay = {"grammar": src, "recovery": bool(rec), "input_tidx@span": inp, "impl_outcome": p.oa, "impl_log": p.log,
                       "impl_errors": p.ea, "impl_tree": p.ta, "generic_tree": p.tg}
             unknown = [x for x in probs if x[0] not in ("empty", "lead")]
@@ -555,7 +566,8 @@ def run(ctx):
         ctx.oblige(ok_case)
         ctx.case("%d %s" % (rec, src), nontriv,
                  {"grammar": src, "recovery": bool(rec), "parses": len(parses), "accepted": n_acc,
-                  "first_input": " ".join("%d@%d-%d" % l for l in parses[0].lexemes) if parses else "",
+                  "first_input": " ".join("%d@%d-%d" % l + ("!" if f else "")
+                                          for l, f in zip(parses[0].lexemes, parses[0].faulty)) if parses else "",
                   "first_log": parses[0].log if parses else []})
     if only_cur_example and only_fix_example:
         # e.g. the repair applied to Parser::lr but not to its copy in lr_upto (or vice versa)
@@ -570,7 +582,12 @@ def run(ctx):
     ctx.coverage["rule"] = ("grammars: template family with epsilon-only / optional / nested-nullable / list rules in first, middle and last "
                             "position of S and of an inner rule T, nullable-heavy, random (35% empty alternatives), reduced random, "
                             "expression grammars, classic corpus, plus a fixed corpus with the DESIGN witnesses; inputs: the empty input, "
-                            "sentences by random derivation, 1-2 token edits of them; every lexeme gets a byte span with random gaps; each "
+                            "sentences by random derivation, 1-2 token edits of them; every lexeme gets a byte span with random gaps; every third "
+                            "input of a case is run a second time with some lexemes handed over by the lexer as FAULTY lexemes "
+                            "(Lexeme::new_faulty, non-zero length; written tok@s-e! in replays): the first / the last / both ends / every "
+                            "k-th / a random subset / all of them, and the fixed corpus is repeated with all / the first / the last lexeme "
+                            "faulty, for plain and for recovery parses (a faulty input lexeme is a lexeme: expected log unchanged but for "
+                            "the flag in the lexeme arguments); the harness lexer is single-shot (a second Lexer::iter call panics); each "
                             "grammar is run with recovery off and with CPCT+ (the mirror replays the repair sequence the implementation "
                             "reports as applied). case = (grammar, recovery flag); non-trivial = at least one accepted parse in which some "
                             "action call derives no lexeme; distinct by grammar text + flag")
@@ -584,5 +601,8 @@ def run(ctx):
         "a zero-length span's position is not constrained by the property; the repaired code (and its theorem) puts it at the end of the "
         "last lexeme parsed before the production (0 at the beginning of the input), as bison's default location does",
         "inserted (faulty, zero-length) lexemes count as lexemes of the production that derives them",
+        "a lexeme the LEXER hands over as faulty (Lexeme::new_faulty, public API) is an input lexeme like any other: it counts as derived by "
+        "its production and bounds the span; generated faulty input lexemes have non-zero length so that the leaves oracle can tell them "
+        "from the zero-length lexemes the recoverer inserts",
         "lexemes come from a replaying lexer with explicit byte spans (start <= end, increasing); lrlex is not involved",
     ]
